@@ -285,6 +285,12 @@ def go_harness(run_regex, env=None, timeout=1500, race=False, extra=None, files=
            "-timeout", "%ds" % timeout, "-run", run_regex]
     if race:
         cmd.append("-race")
+    covdir = os.environ.get("VERIF_COVERDIR")
+    if covdir:
+        # development aid (bin/covreport): statement coverage of the implementation by the harness
+        os.makedirs(covdir, exist_ok=True)
+        tag = hashlib.sha256((run_regex + repr(sorted((env or {}).items())) + str(time.time())).encode()).hexdigest()[:10]
+        cmd += ["-covermode=atomic" if race else "-covermode=set", "-coverprofile=" + os.path.join(covdir, tag + ".out")]
     cmd += (extra or []) + ["."]
     return sh(cmd, cwd=REPO, env=e, timeout=timeout + 60)
 
